@@ -100,7 +100,11 @@ func c20Units(ctx *core.Ctx) []core.Unit {
 		us = append(us, core.Unit{Name: fmt.Sprintf("partition n=%d..%d m=1..%d", lo, hi, maxM), Run: func(ctx *core.Ctx, r *core.Result) {
 			for n := lo; n <= hi; n++ {
 				for m := 1; m <= maxM; m++ {
-					rs, st, fin := freeRun(n, m, false)
+					var rs [][2]int
+					var st, fin int64
+					if !timed(r, "c20.panic", "parallel.Execute", fmt.Sprintf("Execute(n=%d, work, m=%d)", n, m), func() { rs, st, fin = freeRun(n, m, false) }) {
+						continue
+					}
 					r.Evals++
 					if n%m != 0 || n < m {
 						r.Nontrivial++
@@ -129,7 +133,11 @@ func c20Units(ctx *core.Ctx) []core.Unit {
 		for _, k := range cpus {
 			vsched.SetNumCPU(k)
 			for n := 0; n <= maxN; n++ {
-				rs, st, fin := freeRun(n, 0, true)
+				var rs [][2]int
+				var st, fin int64
+				if !timed(r, "c20.panic", "parallel.Execute", fmt.Sprintf("Execute(n=%d, work) with NumCPU=%d", n, k), func() { rs, st, fin = freeRun(n, 0, true) }) {
+					continue
+				}
 				r.Evals++
 				r.Nontrivial++
 				in := fmt.Sprintf("Execute(n=%d, work) with NumCPU=%d", n, k)
